@@ -12,7 +12,7 @@ the exit status and whether a report is written.
 Oracle: the property text and the documented meaning of the options (--pedantic: undeclared names
 are errors, and wins over --strict; --strict: warnings; --permissive: quiet) evaluated on ledger's
 real output from the harness's list of injected faults (item extents), independently of the model."""
-import os, re, shutil
+import os, re, shutil, time
 from concurrent.futures import ThreadPoolExecutor
 import lib
 
@@ -829,7 +829,12 @@ def invoke(cdir, files, roots, args, init, env):
     fargs = []
     for r in roots:
         fargs += ['-f', os.path.join(cdir, r)]
-    st, out, err = lib.run_ledger(pre + fargs + list(args), timeout=120, env=lib.ledger_env(env) if env else None)
+    for attempt in range(60):
+        st, out, err = lib.run_ledger(pre + fargs + list(args), timeout=120, env=lib.ledger_env(env) if env else None)
+        if st == 127 and b'error while loading shared libraries' in err:
+            time.sleep(2)          # the binary is being re-linked by a concurrent build: not an observation of ledger
+            continue
+        break
     return st, out, err.decode('utf-8', 'replace')
 
 
